@@ -36,6 +36,45 @@ def run(ctx):
     obs, verdicts = standard_pipeline(ctx, sub="decoders", mc=mc, gen=gen, trace=("Trace_Decoders", "Trace_Decoders.cfg"),
                                       random_n=30000 if q else 400000, post_gen=_post(ctx.seed, q), jobs=12, timeout_ms=5000,
                                       chunk=100000 if q else 250000, trace_timeout=1800, trace_heap="6g", checked=True)
+    # deep runs: sentences of the same grammars with one token standing for 100 000 / 200 000 repetitions, on the optimised and on the
+    # unoptimised build of the harness (a decoder whose recursion depth grows with the input overflows the stack in the latter first)
+    ctx.build_harness(dbg=True)
+    g = ctx.tlc("DecodersGen", "Gen_Decoders_deepruns.cfg", workers=2, timeout=600, name="gen-deepruns")
+    deep = [d for d in g.lines if any(str(t).startswith("DEEP:") for t in d["toks"])]
+    seen, dd = set(), []
+    for d in deep:
+        k = (d["dec"], tuple(d["toks"]), d["target"]["tag"])
+        if k not in seen:
+            seen.add(k); d["cv"] = len(dd) % 1000; dd.append(d)
+    base = len(obs)
+    for n, d in enumerate(dd):
+        d["id"] = base + n
+    dobs = []
+    for dbg in (False, True):
+        part = ctx.vh("decoders", ctx.write_ndjson("deep-scenarios.ndjson", dd), ctx.path("deep-observations-%d.ndjson" % dbg), jobs=12, timeout_ms=60000, dbg=dbg)
+        for o in part:
+            if dbg:
+                o = {"id": o["id"] + len(dd), "scn": dict(o["scn"], build="unoptimised"), "obs": o["obs"]}
+            dobs.append(o)
+    ctx.evaluations += len(dobs)
+    ctx.extra["deep_run_scenarios"] = len(dd)
+    t = ctx.validate("Trace_Decoders", "Trace_Decoders.cfg", ctx.write_ndjson("deep-trace.ndjson", dobs), len(dobs), name="trace-deepruns", heap="6g", timeout=1800)
+    dv = {}
+    for r in t.lines:
+        if r.get("t") == "VERDICT":
+            dv.setdefault(r["id"], []).append(r)
+    nbad = 0
+    for o in dobs:
+        vs = dv.get(o["id"])
+        if not vs:
+            raise ToolError("Trace_Decoders produced no verdict for deep-run line id=%s" % o["id"])
+        verdicts[o["id"]] = vs
+        if not any(v["ok"] for v in vs):
+            nbad += 1
+            sig = dict(vs[0]["sig"], build=o["scn"].get("build", "optimised"), run="deep")
+            ctx.violation(sig, json.dumps({"scn": {k: (v if k != "toks" else v) for k, v in o["scn"].items()}, "obs": o["obs"]})[:400], o)
+    log("[judge] %d deep-run observation(s) (two builds) judged by Trace_Decoders: %d outside the property" % (len(dobs), nbad))
+    obs = obs + dobs
     kinds, per = {}, {}
     for o in obs:
         s = o["scn"]
